@@ -42,7 +42,7 @@ def trig_case(ctx, PL, drv, rng, name, cb, tier, args=None):
     ctx.count("gen:" + name)
     ctx.count("output-form:" + form)
     ctx.case([name, args, eb, cb, form], True, {"generator": name, "args": args, "ensure_bounded": eb, "chebyshev_basis": cb, "output_form": form, "status": out["status"]})
-    replay = {"generator": name, "args": args, "ensure_bounded": eb, "chebyshev_basis": cb, "output_form": form, "constructor": out.get("constructor")}
+    replay = {"generator": name, "args": args, "ensure_bounded": eb, "chebyshev_basis": cb, "output_form": form, "constructor": out.get("constructor"), "arg_types": out.get("arg_types")}
     if out["status"] != "ok":
         ctx.violation("c16:raises:" + name, "generator raised " + out["exc"], replay)
         return
@@ -75,7 +75,7 @@ def inv_case(ctx, PL, drv, rng, cb, tier, args=None):
     ctx.count("gen:invert")
     ctx.count("output-form:" + form)
     ctx.case(["invert", args, eb, cb, form], True, {"generator": "invert", "args": args, "ensure_bounded": eb, "chebyshev_basis": cb, "output_form": form, "status": out["status"]})
-    replay = {"generator": "invert", "args": args, "ensure_bounded": eb, "chebyshev_basis": cb, "output_form": form, "constructor": out.get("constructor")}
+    replay = {"generator": "invert", "args": args, "ensure_bounded": eb, "chebyshev_basis": cb, "output_form": form, "constructor": out.get("constructor"), "arg_types": out.get("arg_types")}
     if out["status"] != "ok":
         ctx.violation("c16:raises:invert", "generator raised " + out["exc"], replay)
         return
@@ -209,6 +209,7 @@ def run(tier, seed):
                 erf_case(ctx, PL, rng, name, tier)
     ctx.assumptions = ["erf-family clause: the documented targets are recomputed with scipy.special.erf / numpy (independent of pyqsp) and the least-squares fit "
                        "through the discrete Chebyshev transform on the first-kind nodes (explored, not proved)"]
+    ctx.extra["argument_types"] = dict(G.ARG_TYPES)
     return ctx.finish(
         rule="cosine / sine over tau and epsilon (both bases), 1/x over kappa and epsilon with kappa^2 log(kappa/eps) within range (both bases), each decided by its "
              "proven certificate over the continuum; 9 erf-family generators in Chebyshev mode against the independently recomputed least-squares fit; "
